@@ -142,7 +142,7 @@ func recaseStr(r *vlib.R, s string) string { return string(recase(r, []byte(s)))
 // published (NSEC, NXT, SVCB, HTTPS, LP, TALINK, NSAP-PTR),
 // and types without names.
 var rrTypes = []uint16{1, 28, 16, 15, 2, 12, 5, 33, 6, 39, 17, 48, 65280, 13,
-	3, 4, 7, 8, 9, 14, 21, 26, 35, 36, 18, 47, 47, 64, 65, 107, 58, 23, 30}
+	3, 4, 7, 8, 9, 14, 21, 26, 35, 36, 18, 47, 47, 64, 65, 107, 58, 23, 30, 50}
 
 // nameLayout: octets before the names, number of consecutive names (0 = none known here).
 func nameLayout(typ uint16, rd []byte) (skip, names int) {
@@ -198,6 +198,12 @@ func genRdata(r *vlib.R, typ uint16) []byte {
 		return name()
 	case 47, 30: // NSEC, and NXT which the library reads the same way: next name + a type bitmap
 		return append(name(), vlib.Pick(r, [][]byte{{0, 1, 0x40}, {0, 6, 0x40, 0, 0, 0, 0, 3}, {0, 1, 0x62, 1, 1, 0x80}})...)
+	case 50: // NSEC3: SHA-1, flags, iterations, salt, next hashed owner, type bitmap
+		salt := r.Bytes(r.Intn(5))
+		out := append([]byte{1, byte(r.Intn(2)), 0, byte(r.Intn(20)), byte(len(salt))}, salt...)
+		out = append(out, 20)
+		out = append(out, r.Bytes(20)...)
+		return append(out, 0, 1, 0x40)
 	case 14, 58: // MINFO; TALINK
 		return append(name(), name()...)
 	case 26: // PX
@@ -1243,6 +1249,14 @@ func (w *world) genMessage() {
 	if dc, _, ok := w.baseCaseOpt(s, baseOpts{typ: 39, zone: zoneL, key: first.k, plain: true}); ok {
 		dnameCase = &dc
 	}
+	// denial records: signed at their own owner, at a wildcard owner, and the wildcard's record renamed to an expansion
+	for _, typ := range []uint16{47, 50} {
+		for wild := 0; wild <= 2; wild++ {
+			if c, _, ok := w.baseCaseOpt(s, baseOpts{typ: typ, zone: zoneL, key: first.k, plain: wild == 0, wild: wild}); ok {
+				w.out(msgLine(first.sig.SignerName, []*dns.DNSKEY{first.k}, []*dns.RRSIG{c.sig}, c.rrs, len(c.rrs)))
+			}
+		}
+	}
 	for scenario := 0; scenario < 19; scenario++ {
 		if scenario > 0 && r.Chance(1, 2) {
 			continue
@@ -1402,6 +1416,7 @@ type baseOpts struct {
 	zone  [][]byte
 	key   *dns.DNSKEY
 	plain bool // no wildcard
+	wild  int  // 1: the presented owner is an expansion of a wildcard, 2: the wildcard owner itself
 }
 
 func (w *world) baseCaseOpt(s *signer, o baseOpts) (vcase, []byte, bool) {
@@ -1416,11 +1431,17 @@ func (w *world) baseCaseOpt(s *signer, o baseOpts) (vcase, []byte, bool) {
 	// wildcard: the signed owner is "*." + closest encloser, the presented owner an expansion of it
 	signedL := ownerL
 	labels := len(ownerL)
-	if len(extra) > 0 && r.Chance(1, 3) && !o.plain {
+	if o.wild != 0 && len(extra) == 0 {
+		extra = genLabels(r, 1, 2, true)
+		ownerL = append(append([][]byte{}, extra...), zoneL...)
+		labels = len(ownerL)
+		signedL = ownerL
+	}
+	if len(extra) > 0 && ((r.Chance(1, 3) && !o.plain) || o.wild != 0) {
 		ce := ownerL[1+r.Intn(len(extra)):]
 		signedL = append([][]byte{[]byte("*")}, ce...)
 		labels = len(ce)
-		if r.Chance(1, 4) {
+		if (o.wild == 0 && r.Chance(1, 4)) || o.wild == 2 {
 			ownerL = signedL // the wildcard record itself
 		}
 	}
